@@ -181,3 +181,16 @@ Theorem C11_abstract_queue_meets_history_spec :
   forall h q, aq_replay h = Some q -> hist_ok h q.
 Proof. exact aq_replay_hist_ok. Qed.
 Print Assumptions C11_abstract_queue_meets_history_spec.
+
+(** The sequential model of Next used by the mode E correspondence is a
+    special case of the transition system: each of its outcomes is produced by
+    consumer steps alone ("hang" = parked with no enabled select case). *)
+Theorem C11_next_seq_in_lts :
+  forall fuel c s q' r,
+    l_cp s = CIdle \/ l_cp s = CTry ->
+    l_cancelled s = ctx_fires c ->
+    In (q', r) (next_seq fuel c (l_q s)) ->
+    exists sch s', run lstep s sch = Some s' /\ Forall cons_label sch /\ l_q s' = q' /\
+                   next_outcome r s'.
+Proof. exact next_seq_in_lts. Qed.
+Print Assumptions C11_next_seq_in_lts.
